@@ -192,6 +192,11 @@ fn strategy() -> BoxedStrategy<Case> {
         (1, "Set-Cookie".to_string()),
         (1, "LOCATION".to_string()),
         (1, "Location".to_string()),
+        // names that are prefixes of one another
+        (1, "X-A-Long".to_string()),
+        (1, "X".to_string()),
+        (1, "Content-Type-Options".to_string()),
+        (1, "x-a-".to_string()),
     ]);
     let value = prop_oneof![
         3 => pick(vec!["1".to_string(), "2".to_string(), "".to_string(), "a, b".to_string()]),
@@ -203,11 +208,63 @@ fn strategy() -> BoxedStrategy<Case> {
     (headers, filters).prop_map(|(headers, filters)| Case { headers, filters }).boxed()
 }
 
+// ---- filters spread over several matched rules (merged by Action::from_routes_rule) ----------------------
+#[derive(Serialize, Deserialize, Clone, Debug, PartialEq)]
+pub struct MergedCase {
+    pub headers: Vec<(String, String)>,
+    /// per rule: (rank, filters)
+    pub rules: Vec<(u16, Vec<(String, String, String)>)>,
+    pub order: Vec<u16>,
+}
+
+pub fn check_merged(case: &MergedCase) -> Outcome {
+    use crate::spec::*;
+    let mut out = Outcome::new();
+    let specs: Vec<RuleSpec> = case
+        .rules
+        .iter()
+        .enumerate()
+        .map(|(i, (rank, fs))| {
+            let mut r = RuleSpec::simple(&format!("r{i}"), "/foo");
+            r.rank = *rank;
+            r.header_filters = Some(fs.iter().map(|(a, h, v)| HeaderFilterSpec { action: a.clone(), header: h.clone(), value: v.clone(), id: None, target_hash: None }).collect());
+            r
+        })
+        .collect();
+    let req = RequestSpec { uri: "/foo".into(), ..Default::default() }.build(&ConfigSpec::default().to_lib());
+    let routes = crate::props::c05::shuffled(&crate::props::c05::routes_of(&specs), &case.order);
+    let mut action = Action::from_routes_rule(routes, &req, None);
+    // rule order = rank descending, then id descending
+    let mut sorted = specs.clone();
+    crate::mfold::sort_rules(&mut sorted);
+    let all: Vec<(String, String, String)> = sorted.iter().flat_map(|r| r.header_filters.clone().unwrap_or_default().into_iter().map(|f| (f.action, f.header, f.value))).collect();
+    let expected = m_headers(&case.headers, &all);
+    let input: Vec<Header> = case.headers.iter().map(|(n, v)| Header { name: n.clone(), value: v.clone() }).collect();
+    let got = action.filter_headers(input, 200, false, None);
+    if let Some(m) = compare(&expected, &got, "Action::filter_headers over merged rules") {
+        out.fail(m);
+        return out;
+    }
+    let untouched = expected.iter().filter(|e| e.2).count();
+    out.nontrivial = case.rules.len() >= 2 && (expected.len() != case.headers.len() || untouched != case.headers.len()) && untouched >= 1;
+    out.class("merged-rules");
+    out
+}
+
+fn merged_strategy() -> BoxedStrategy<MergedCase> {
+    let name = pick(vec!["X-A".to_string(), "x-a".to_string(), "X-B".to_string(), "X-A-Long".to_string()]);
+    let value = pick(vec!["1".to_string(), "2".to_string(), "".to_string()]);
+    let filter = (pick(ACTIONS.iter().map(|s| s.to_string()).collect()), name.clone(), value.clone());
+    (prop::collection::vec((name, value), 0..4), prop::collection::vec((0u16..3, prop::collection::vec(filter, 1..3)), 1..5), prop::collection::vec(any::<u16>(), 5))
+        .prop_map(|(headers, rules, order)| MergedCase { headers, rules, order })
+        .boxed()
+}
+
 pub fn run(ctx: &Ctx) -> Report {
     let mut rep = Report::new(
         "C13",
         "case = (response header list, header-filter sequence); oracle = left fold of the reference operations (ASCII-case-insensitive names), \
-         compared with FilterHeaderAction::filter and Action::filter_headers(h, 200, false, None); exhaustive part enumerates header lists of length <=3 over \
+         compared with FilterHeaderAction::filter and Action::filter_headers(h, 200, false, None), also for filters spread over 1..4 matched rules merged by Action::from_routes_rule (rule order = rank desc, id desc); exhaustive part enumerates header lists of length <=3 over \
          {X-A,x-a,X-B}x{1,2,''} x filter sequences over 6 actions x {x-a,X-B,X-C}; non-trivial = at least one header changed/added/removed AND at least one input header left untouched; distinct by hash of the serialised case",
     );
     rep.assume("header names are ASCII (HTTP tokens); untouched headers must keep their exact spelling, rewritten/appended ones are compared case-insensitively on the name");
@@ -230,9 +287,16 @@ pub fn run(ctx: &Ctx) -> Report {
         let r = run_part(ctx, "random", ctx.cases(1_000_000, 30_000_000), strategy, check, &[]);
         rep.add(r);
     }
+    if !rep.has_violation() {
+        rep.add(run_part(ctx, "merged-rules", ctx.cases(300_000, 10_000_000), merged_strategy, check_merged, &[]));
+    }
     rep
 }
 
-pub fn replay(_part: &str, case: &Value) -> Result<Outcome, String> {
-    replay_case::<Case, _>(case, check)
+pub fn replay(part: &str, case: &Value) -> Result<Outcome, String> {
+    if part == "merged-rules" {
+        replay_case::<MergedCase, _>(case, check_merged)
+    } else {
+        replay_case::<Case, _>(case, check)
+    }
 }
